@@ -485,9 +485,10 @@ class Lexer():
                     i = len(m.group(0))
                     break
 
-        for c in s[:i]:
-            # (b'\n'[0] == 10)
-            if c == b'\n'[0]:
+        for k in range(i):
+            # A line ends at LF, CRLF or a CR on its own.
+            if (s[k:k+1] == b'\n' or
+                    (s[k:k+1] == b'\r' and s[k+1:k+2] != b'\n')):
                 self._cur_lineno += 1
                 self._cur_charno = 0
             else:
